@@ -360,6 +360,13 @@ func c10Malformed(t *rapid.T) {
 		}
 		count++
 	}
+	// a stray CR in front of the line terminator of a number / length line
+	for _, m := range []string{":5\r\r\n", "$3\r\r\nfoo\r\n", "*1\r\r\n:1\r\n", ":-7\r\r\r\n", "$0\r\r\n\r\n"} {
+		if mustErr(t, "number-line-with-stray-cr", []byte(m)) {
+			return
+		}
+		count++
+	}
 	// unknown type byte inside an array
 	tb := rapid.Byte().Draw(t, "tb")
 	switch tb {
